@@ -1,0 +1,50 @@
+//go:build verif
+
+package metadatapart
+
+import "github.com/jdillenkofer/pithos/internal/storage"
+
+// Pure specification functions used by the contracts in zz_contracts_verif.go.
+// They are written from the property statements (RFC 7233 byte ranges), not from the code they judge.
+
+func specMin(a int64, b int64) int64 {
+	if a <= b {
+		return a
+	}
+	return b
+}
+
+// specLo and specHi give the RFC 7233 slice [lo,hi) selected by a storage.ByteRange
+// (Start inclusive, End exclusive; Start == nil && End != nil is a suffix range of *End bytes)
+// on an object of the given size.
+func specLo(r storage.ByteRange, size int64) int64 {
+	if r.Start == nil {
+		if r.End == nil {
+			return 0
+		}
+		return size - specMin(*r.End, size)
+	}
+	return *r.Start
+}
+
+func specHi(r storage.ByteRange, size int64) int64 {
+	if r.Start == nil {
+		return size
+	}
+	if r.End == nil {
+		return size
+	}
+	return specMin(*r.End, size)
+}
+
+// specSatisfiable: a byte range is satisfiable iff it selects at least one byte of the object.
+func specSatisfiable(r storage.ByteRange, size int64) bool {
+	if r.Start == nil && r.End != nil {
+		return *r.End > 0 && size > 0
+	}
+	return specLo(r, size) >= 0 && specLo(r, size) < specHi(r, size)
+}
+
+func specSameSlice(out storage.ByteRange, in storage.ByteRange, size int64) bool {
+	return specLo(out, size) == specLo(in, size) && specHi(out, size) == specHi(in, size)
+}
